@@ -48,6 +48,9 @@ def card(opt, files):
         "phsp": [files["phsp"]],
         "data_weight": [files["data_weight"]],
         "phsp_weight": [files["phsp_weight"]],
+        # a non-default kinematic convention (r_boost stays True): the strategies that compute the angles themselves,
+        # eagerly or inside a traced graph, must hand the same options on (the density does not depend on them, C02)
+        "random_z": False,
     }
     for k in ("amp_model", "preprocessor"):
         if opt[k] != "default":
